@@ -49,6 +49,22 @@ impl FoundViolation {
         let kind = inst.map(|i| i.kind.name()).unwrap_or("?");
         format!("{}:{}", self.violation.class, kind)
     }
+
+    /// A replay document for this violation as found (not minimised).
+    pub fn raw_replay(&self) -> String {
+        crate::json::J::obj(vec![
+            ("property", crate::json::J::s("C06")),
+            ("class", crate::json::J::s(self.violation.class)),
+            ("signature", crate::json::J::S(self.signature())),
+            ("detail", crate::json::J::S(self.violation.detail.clone())),
+            ("violating_instance", crate::json::J::U(self.violation.inst as u64)),
+            ("found_with_build", crate::json::J::s(if cfg!(debug_assertions) { "dbgassert" } else { "release" })),
+            ("minimised", crate::json::J::Bool(false)),
+            ("spec", self.spec.to_json()),
+            ("budgets", crate::run::budgets_to_json(&self.budgets)),
+        ])
+        .to_string_pretty()
+    }
 }
 
 #[derive(Default, Clone)]
@@ -95,6 +111,7 @@ pub struct Stats {
     // post-end polls (probe only)
     pub extra_none: u64,
     pub extra_some_after_done: u64,
+    pub after_own_err: u64,
     pub extra_polls_after_err: u64,
 
     // builder half
@@ -109,6 +126,9 @@ pub struct Stats {
     pub hook_both_set: u64,
     pub hook_clamped: u64,
     pub builder_inverted: u64,
+    pub chains_completed: u64,
+    pub bexh_distinct: u64,
+    pub solver_inverted_only: u64,
     pub solver_bound_reads: u64,
     pub euler_tol_nonpositive_ok: u64,
     pub chain_hash: u64,
@@ -129,6 +149,16 @@ fn add<K: Ord>(m: &mut BTreeMap<K, u64>, k: K, n: u64) {
 }
 
 impl Stats {
+    /// Record a violation; also leave it where the watchdog can find it (see `watch::PENDING`).
+    pub fn found(&mut self, fv: FoundViolation) {
+        if let Ok(mut g) = crate::run::watch::PENDING.lock() {
+            if g.len() < 12 && !g.iter().any(|(s, _)| *s == fv.signature()) {
+                g.push((fv.signature(), fv.raw_replay()));
+            }
+        }
+        self.violations.push(fv);
+    }
+
     pub fn probe(&mut self, name: &'static str) {
         add(&mut self.probes, name, 1);
     }
@@ -180,6 +210,7 @@ impl Stats {
         }
         self.extra_none += o.extra_none;
         self.extra_some_after_done += o.extra_some_after_done;
+        self.after_own_err += o.after_own_err;
         self.extra_polls_after_err += o.extra_polls_after_err;
         self.chains += o.chains;
         for (k, v) in o.chains_by_kind {
@@ -196,6 +227,9 @@ impl Stats {
         self.hook_both_set += o.hook_both_set;
         self.hook_clamped += o.hook_clamped;
         self.builder_inverted += o.builder_inverted;
+        self.chains_completed += o.chains_completed;
+        self.bexh_distinct += o.bexh_distinct;
+        self.solver_inverted_only += o.solver_inverted_only;
         self.solver_bound_reads += o.solver_bound_reads;
         self.euler_tol_nonpositive_ok += o.euler_tol_nonpositive_ok;
         self.chain_hash = self.chain_hash.wrapping_add(o.chain_hash);
@@ -227,11 +261,15 @@ impl Stats {
             self.builder_calls += s.builder_calls;
             self.hook_reads += s.hook_reads;
             self.solver_bound_reads += s.solver_reads;
+            if s.solver_inverted && !s.builder_inverted {
+                self.solver_inverted_only += 1;
+            }
             if s.builder_inverted {
                 self.builder_inverted += 1;
             }
             self.extra_none += s.extra_none;
             self.extra_some_after_done += s.extra_some_after_done;
+            self.after_own_err += s.after_own_err;
             if let Some((_, c)) = s.builder_rejected {
                 add(&mut self.rejected_by_class, c.name(), 1);
             }
@@ -278,7 +316,9 @@ impl Stats {
         }
         if spec.instances.len() > 1 {
             self.multi_runs += 1;
-            self.isolation_checks += spec.instances.len() as u64;
+            if spec.solo_baselines {
+                self.isolation_checks += spec.instances.len() as u64;
+            }
             if spec.instances.iter().any(|i| i.nested_every > 0) {
                 self.nested_polls_runs += 1;
             }
